@@ -9,4 +9,6 @@ CONSTANTS
   F = 3
   Blocks = {0, 1, 2, 3, 4, 5, 6, 9, 12, 13, 14, 15, 24, 36, 47, 48, 300}
   MaxCalls = 0
+  Execs = {}
+  Stateless = TRUE
 INVARIANTS Emit
